@@ -74,11 +74,13 @@ CLAIMS = {
             "world consistent, next dispatch exactly once.",
             EXE + " with fault injection (InvC14, InvC04x)", "DESIGN.md §5 C14"),
     "C15": ("Async dispatcher: Async.tla (caller and background job as two processes, every call sequence of bounded length interleaved with the job; "
-            "safety invariants, the RunningAction property and the liveness property that every blocking call returns); real AsyncDispatcher sessions with "
+            "safety invariants, the RunningAction property and the liveness property that every blocking call returns); the safety invariants are "
+            "additionally proved for call sequences of ANY length by an inductive invariant discharged with Apalache (AsyncInd.tla, with negative "
+            "controls); real AsyncDispatcher sessions with "
             "random call sequences while the background systems are held inside run: TLC checks on the recorded trace that blocking calls return only "
             "when everything is complete, running() is true while a system runs and false only when all finished, dispatches never overlap or get lost, "
             "thread-local systems only inside wait on the caller.",
-            "TLC model checking of Async.tla + real async sessions validated by ShredTrace (InvC15, InvC04x, InvC12)", "DESIGN.md §5 C15"),
+            "TLC model checking of Async.tla + Apalache inductive invariant (AsyncInd.tla) + real async sessions validated by ShredTrace (InvC15, InvC04x, InvC12)", "DESIGN.md §5 C15"),
     "C16": ("Par/Seq trees: ParSeq.tla (tree as a table; construction child by child with the Par::with check of the three intersections under debug "
             "assertions; LeafFetch/LeafFinish enabled iff no seq ancestor has an unfinished earlier child) checked for all trees with <= 5 leaves and every "
             "interleaving; every emitted tree is built from the REAL Par/Seq/Nil constructors (run-time adapter + compile-time par!/seq! types), with() "
